@@ -15,7 +15,7 @@
                measured from the Go runtime by the harness) reproduces every observation of the session
    c10_is    : every observed outcome is the outcome the SPECIFICATION assigns to (program, arguments,
                consumption) alone - sp_prog, no heap, no history *)
-From P2 Require Import Base.Prelude Heap.ListHeap Heap.FuncState.
+From P2 Require Import Base.Prelude Heap.ListHeap Heap.MapHeap Heap.FuncState Heap.MapState.
 Local Open Scope nat_scope.
 
 Inductive rep := R3 (present : bool) (len cap : nat).
@@ -95,7 +95,8 @@ Fixpoint l_has_arg (e : lexp) : bool :=
   | LAppend l x => l_has_arg l || z_has_arg x
   | LMap k l | LAccept k l | LTop k l | LSkip k l | LGuard k l => s_has_arg k || l_has_arg l
   | LConcat a b => l_has_arg a || l_has_arg b
-  | LReverse l | LForce l => l_has_arg l
+  | LReverse l | LForce l | LOrder l => l_has_arg l
+  | LStage _ a b => l_has_arg a || l_has_arg b
   end
 with z_has_arg (e : zexp) : bool :=
   match e with
@@ -105,6 +106,7 @@ with z_has_arg (e : zexp) : bool :=
   | ZSize l | ZSum l | ZFirst l => l_has_arg l
   | ZThrow => true                (* throw is impure: never folded *)
   | ZIfLt a b t e => z_has_arg a || z_has_arg b || z_has_arg t || z_has_arg e
+  | ZCall a b x => s_has_arg a || s_has_arg b || z_has_arg x
   end.
 
 (* every compound node depends on an argument *)
@@ -117,7 +119,8 @@ Fixpoint l_nofold (e : lexp) : bool :=
   | LAppend l x => l_has_arg e && l_nofold l && z_nofold x
   | LMap k l | LAccept k l | LTop k l | LSkip k l | LGuard k l => l_has_arg e && l_nofold l
   | LConcat a b => l_has_arg e && l_nofold a && l_nofold b
-  | LReverse l | LForce l => l_has_arg l && l_nofold l
+  | LReverse l | LForce l | LOrder l => l_has_arg l && l_nofold l
+  | LStage _ a b => l_has_arg e && l_nofold a && l_nofold b
   end
 with z_nofold (e : zexp) : bool :=
   match e with
@@ -128,6 +131,7 @@ with z_nofold (e : zexp) : bool :=
   | ZSize l | ZSum l | ZFirst l => l_has_arg l && l_nofold l
   | ZThrow => true
   | ZIfLt a b t e' => (z_has_arg a || z_has_arg b) && z_nofold a && z_nofold b && z_nofold t && z_nofold e'
+  | ZCall a b x => z_has_arg e && z_nofold x
   end.
 
 Definition body_nofold (b : body) : bool := match b with BZ e => z_nofold e | BL e => l_nofold e end.
@@ -135,12 +139,26 @@ Definition body_nofold (b : body) : bool := match b with BZ e => z_nofold e | BL
 Definition event_ok (e : event) : bool :=
   match e with EGen p => body_nofold (p_body p) | _ => true end.
 
-Definition c10_case := (N * list event * list xobs)%type.
-Definition c10_id (c : c10_case) : N := fst (fst c).
+(* an evaluation of a program of the MAP fragment (Heap/MapState.v) that took place somewhere in the session:
+   program, arguments, observed outcome (None = error).  The model answers from a fresh Generate: that the history of
+   the session does not matter is C10_map_eval_history_independent; if the implementation depended on it, it shows here *)
+Inductive mcase := MCase (p : mprog) (args : list Z) (obs : option Z).
+Arguments MCase p args%Z obs.
+
+Definition oz_eqb (a b : option Z) : bool :=
+  match a, b with Some x, Some y => Z.eqb x y | None, None => true | _, _ => false end.
+
+Definition mcase_im (c : mcase) : bool :=
+  match c with MCase p args obs => match meval_prog p args with Some r => oz_eqb r obs | None => false end end.
+Definition mcase_is (c : mcase) : bool :=
+  match c with MCase p args obs => oz_eqb (sp_mprog p args) obs end.
+
+Definition c10_case := (N * list event * list xobs * list mcase)%type.
+Definition c10_id (c : c10_case) : N := fst (fst (fst c)).
 
 Definition c10_im (cp : caps) (c : c10_case) : bool :=
-  let hist := snd (fst c) in
-  forallb event_ok hist && all2 xobs_eqb (model_session cp new_generator hist) (snd c).
+  let hist := snd (fst (fst c)) in
+  forallb event_ok hist && all2 xobs_eqb (model_session cp new_generator hist) (snd (fst c)) && forallb mcase_im (snd c).
 
 (* specification side: the programs generated so far, in order; every observed outcome is sp_prog's *)
 Fixpoint spec_session (progs : list prog) (hist : list event) (obs : list xobs) : bool :=
@@ -157,7 +175,7 @@ Fixpoint spec_session (progs : list prog) (hist : list event) (obs : list xobs) 
   | _, _ => false
   end.
 
-Definition c10_is (c : c10_case) : bool := spec_session [] (snd (fst c)) (snd c).
+Definition c10_is (c : c10_case) : bool := spec_session [] (snd (fst (fst c))) (snd (fst c)) && forallb mcase_is (snd c).
 
 (* capacity policies from measured tables (index = number of elements; beyond the table: exactly n) *)
 Definition caps_of_tables (ev ap : list nat) : caps :=
